@@ -53,7 +53,7 @@ def canon_impl(r):
 
 
 def canon_model(line):
-    if line in ("OK", "unbound", "rebound", "badtree"):
+    if line in ("OK", "unbound", "rebound", "badtree", "EQ", "NE"):
         return (line, [])
     f = line.split(" ", 1)
     st = f[0]
